@@ -88,6 +88,7 @@ inductive Start where
 inductive Label where
   | start (c : Nat) (st : Start)
   | step (c : Nat)
+  | truncSnap (j : Nat)     -- snap.zng of journal j is truncated (first half of a create-then-fill put)
   deriving DecidableEq, Repr
 
 def JOp.isUpdate : JOp → Bool
@@ -210,6 +211,7 @@ def Sys.step (s : Sys) (c : Nat) : Sys × Option Ev :=
 def Sys.exec (s : Sys) : Label → Sys
   | .start c st => s.start c st
   | .step c => (s.step c).1
+  | .truncSnap j => { s with store := s.store.del (.snap j) }
 
 def Sys.run (s : Sys) : List Label → Sys
   | [] => s
